@@ -146,7 +146,12 @@ void genHostile(Prng& r, Plan& p, int tier)
 			int mut = r.below(4) == 0 ? -1 : (int)r.below(9);
 			int cut = r.below(2) ? (int)r.below(1001) : -1;
 			int stall = r.below(8) == 0 ? (int)r.below(r.below(2) ? 3000 : 15000) : 0;
-			p.ops.push_back(op("peer", {(int64_t)(r.next() >> 20), mut, cut, stall, (int64_t)r.below(50), (int64_t)biased(r, 0, 3000, {0, 1, 100, 2000})}));
+			// legal spellings of a well-formed stream (bits 0-1 separator style, bits 2-3 folded first header, bit 4 a second complete request pipelined right
+			// behind the first one) and one malformed one (bit 5: a header line without a colon)
+			int64_t variant = 0;
+			if (r.below(3) == 0)
+				variant = (int64_t)r.below(4) | ((int64_t)(r.below(3) == 0 ? 1 + r.below(2) : 0) << 2) | ((int64_t)(r.below(4) == 0) << 4) | ((int64_t)(r.below(8) == 0) << 5);
+			p.ops.push_back(op("peer", {(int64_t)(r.next() >> 20), mut, cut, stall, (int64_t)r.below(50), (int64_t)biased(r, 0, 3000, {0, 1, 100, 2000}), variant}));
 		}
 		if (r.below(2))
 			p.p["knob.net.frag"] = 10 + r.below(90);
@@ -176,6 +181,7 @@ void genHostile(Prng& r, Plan& p, int tier)
 struct Peer
 {
 	Spec* spec = nullptr; // null: mutated stream (unknown id)
+	Spec* follower = nullptr; // a second complete request sent right behind the first one on the same connection (pipelined)
 	std::string stream;
 	size_t cutAt = (size_t)-1;
 	int stallMs = 0, atMs = 0;
@@ -351,7 +357,7 @@ void runHostile(const Plan& p)
 	}
 	if (npeers > 6)
 		npeers = 6;
-	specs.resize(npeers);
+	specs.resize(2 * npeers); // [npeers, 2*npeers): pipelined followers
 	peers.resize(npeers);
 	sim::fs::mkdirs("/sim/www");
 	sim::fs::put("/sim/www/f0.txt", bodyOf(7, 20000, true));
@@ -370,13 +376,27 @@ void runHostile(const Plan& p)
 		s.respKind = 1;
 		int mut = (int)o.arg(1);
 		Prng r(mix64((uint64_t)o.arg(0), 31337));
-		std::string head = rawRequestHead(s, false, PORT);
+		const int variant = mut < 0 ? (int)(std::abs(o.arg(6)) & 63) : 0;
+		s.hdrSep = variant & 3;
+		s.fold = std::min(2, (variant >> 2) & 3);
+		s.badLine = (variant >> 5) & 1;
+		const bool pipelined = ((variant >> 4) & 1) && !s.badLine && !s.expect100;
+		std::string head = rawRequestHead(s, pipelined, PORT);
 		std::string payload = s.chunkedUpload ? chunkedEncode(s.body, r) : s.body;
 		pe.headLen = head.size();
 		if (mut < 0)
 		{
 			pe.spec = &s;
 			pe.stream = head + payload;
+			if (pipelined)
+			{
+				Spec& f = specs[npeers + i];
+				buildSpec(f, (int)(npeers + i), 1, mix64((uint64_t)o.arg(0), 555), bl / 2, 50, 1, 0);
+				f.respKind = 1;
+				f.expect100 = false;
+				pe.follower = &f;
+				pe.stream += rawRequestHead(f, false, PORT) + (f.chunkedUpload ? chunkedEncode(f.body, r) : f.body);
+			}
 		}
 		else
 		{
@@ -456,27 +476,62 @@ void runHostile(const Plan& p)
 			          s->chunkedUpload ? "chunked" : "Content-Length", s->oBody.size(), s->body.size());
 			continue;
 		}
-		if (pe.sentAll && pe.stallMs < 4000 && !p.get("relaxed"))
+		auto sameHeader = [](const Spec* sp, size_t h) {
+			std::string a = sp->headers[h].second, b = sp->oHeaders[h].second;
+			if (h == 0 && sp->fold && a.size() >= 6)
+			{
+				// a folded value: the line breaks stand for white space (RFC 7230 3.2.4); how much of it the library keeps is not judged, the text is
+				a.erase(std::remove_if(a.begin(), a.end(), [](char c) { return c == ' ' || c == '\t'; }), a.end());
+				b.erase(std::remove_if(b.begin(), b.end(), [](char c) { return c == ' ' || c == '\t'; }), b.end());
+			}
+			return a == b;
+		};
+		auto exact = [&](Spec* s, const char* what) {
+			std::string tag = what;
+			if (s->oMethod != s->method)
+				sim::fail("handler_mismatch", (tag + "method").c_str(), "well-formed request: sent method %s, handler saw %s", s->method.c_str(), s->oMethod.c_str());
+			if (s->oPath != s->pathDecoded)
+				sim::fail("handler_mismatch", (tag + "path").c_str(), "well-formed request: target %s decodes to '%s', handler saw '%s'", printable(s->target, 80).c_str(), printable(s->pathDecoded).c_str(), printable(s->oPath).c_str());
+			for (size_t q = 0; q < s->oQuery.size(); q++)
+				if (q >= s->query.size() || s->oQuery[q].second != s->query[q].second)
+				{
+					sim::fail("handler_mismatch", (tag + "query").c_str(), "well-formed request: query parameter %zu differs", q);
+					break;
+				}
+			for (size_t h = 0; h < s->oHeaders.size() && h < s->headers.size(); h++)
+				if (!sameHeader(s, h))
+					sim::fail("handler_mismatch", (tag + (h == 0 && s->fold ? "header;folded" : s->hdrSep ? "header;separator" : "header")).c_str(), "well-formed request: header %s sent '%s'%s, handler saw '%s'", s->headers[h].first.c_str(),
+					          printable(s->headers[h].second).c_str(), h == 0 && s->fold ? (s->fold == 1 ? " (folded over two lines)" : " (folded over three lines)") : s->hdrSep ? " (white space after the colon: none, one, two blanks or a tab)" : "",
+					          printable(s->oHeaders[h].second).c_str());
+			if (s->oBody != s->body)
+				sim::fail("handler_mismatch", (tag + (s->chunkedUpload ? "body;chunked" : "body;length")).c_str(), "well-formed request: body of %zu bytes sent, handler saw %zu bytes (first difference at %zu)", s->body.size(), s->oBody.size(),
+				          firstDiff(s->body, s->oBody));
+		};
+		const bool judgedExactly = pe.sentAll && pe.stallMs < 4000 && !p.get("relaxed");
+		if (pe.follower && judgedExactly)
+			sim::probe(pe.follower->handlerCalls > 0 ? "pipelined_second_request_dispatched" : "pipelined_second_request_dropped");
+		if (s->hdrSep && judgedExactly)
+			sim::probe("header_separator_variants");
+		if (s->fold && judgedExactly)
+			sim::probe(s->fold == 1 ? "header_folded_2_lines" : "header_folded_3_lines");
+		if (s->badLine && judgedExactly)
+			sim::probe("header_line_without_colon_dispatched");
+		if (pe.follower && pe.follower->handlerCalls > 0 && judgedExactly)
+			exact(pe.follower, "pipelined_second;"); // the second of two requests sent back to back: dropped, or handed over as sent
+		if (s->badLine)
+		{
+			// a head with a line that is no header: the connection may be dropped, or the rest handed over as sent - not a request with the
+			// headers behind the bad line and the body missing
+			if (judgedExactly && (s->oBody != s->body || s->oMethod != s->method))
+				sim::fail("handler_mismatch", "dispatched_malformed_head", "a request whose header block contains a line without a colon was handed to the application with %zu of its %zu body bytes", s->oBody.size(), s->body.size());
+			continue;
+		}
+		if (judgedExactly)
 		{
 			// a complete well-formed request (a peer that stalls beyond the library's 5-10 s waits, or a run in which the scheduler may starve threads
 			// for arbitrary simulated time, is treated like one that
 			// stopped sending: the application may then see the part that had arrived): the application must have seen exactly what was sent
-			if (s->oMethod != s->method)
-				sim::fail("handler_mismatch", "method", "well-formed request: sent method %s, handler saw %s", s->method.c_str(), s->oMethod.c_str());
-			if (s->oPath != s->pathDecoded)
-				sim::fail("handler_mismatch", "path", "well-formed request: target %s decodes to '%s', handler saw '%s'", printable(s->target, 80).c_str(), printable(s->pathDecoded).c_str(), printable(s->oPath).c_str());
-			for (size_t q = 0; q < s->oQuery.size(); q++)
-				if (q >= s->query.size() || s->oQuery[q].second != s->query[q].second)
-				{
-					sim::fail("handler_mismatch", "query", "well-formed request: query parameter %zu differs", q);
-					break;
-				}
-			for (size_t h = 0; h < s->oHeaders.size() && h < s->headers.size(); h++)
-				if (s->oHeaders[h].second != s->headers[h].second)
-					sim::fail("handler_mismatch", "header", "well-formed request: header %s sent '%s', handler saw '%s'", s->headers[h].first.c_str(), printable(s->headers[h].second).c_str(), printable(s->oHeaders[h].second).c_str());
-			if (s->oBody != s->body)
-				sim::fail("handler_mismatch", s->chunkedUpload ? "body;chunked" : "body;length", "well-formed request: body of %zu bytes sent, handler saw %zu bytes (first difference at %zu)", s->body.size(), s->oBody.size(),
-				          firstDiff(s->body, s->oBody));
+			exact(s, pe.follower ? "pipelined_first;" : "");
 		}
 		else if (!s->chunkedUpload)
 		{
@@ -485,8 +540,13 @@ void runHostile(const Plan& p)
 				sim::fail("handler_mismatch", "body;cut", "cut request: handler saw a body that is not a prefix of the bytes sent");
 			for (size_t h = 0; h < s->oHeaders.size() && h < s->headers.size(); h++)
 			{
-				const std::string& got = s->oHeaders[h].second;
-				if (got != "\x01<absent>" && s->headers[h].second.compare(0, got.size(), got) != 0)
+				std::string got = s->oHeaders[h].second, sent = s->headers[h].second;
+				if (h == 0 && s->fold && got != "\x01<absent>")
+				{
+					got.erase(std::remove_if(got.begin(), got.end(), [](char c) { return c == ' ' || c == '\t'; }), got.end());
+					sent.erase(std::remove_if(sent.begin(), sent.end(), [](char c) { return c == ' ' || c == '\t'; }), sent.end());
+				}
+				if (got != "\x01<absent>" && sent.compare(0, got.size(), got) != 0)
 					sim::fail("handler_mismatch", "header;cut", "cut request: handler saw header %s = '%s', not a prefix of what was sent", s->headers[h].first.c_str(), printable(got).c_str());
 			}
 		}
